@@ -131,7 +131,12 @@ func Session(t *tape.Tape) *core.RunResult {
 		return res
 	}
 	slots := uint64(1) << t.Choose(3) // 1, 2 or 4 slots
-	tt := search.NewTranspositionTable(ctx, slots<<5)
+	req := slots << 5
+	if t.Chance(1, 3) {
+		req += uint64(1 + t.Choose(int(req)-1)) // any size: rounded down to a power of two
+		res.Probe("table-size-not-a-power-of-two")
+	}
+	tt := search.NewTranspositionTable(ctx, req)
 	nHash := t.Range(2, 5)
 	hashes := make([]board.ZobristHash, nHash)
 	for i := range hashes {
